@@ -822,6 +822,9 @@ def adjoint_programs(algopy):
         # transforms that pad or truncate (n different from the length of the axis)
         ("fft_n_pad", lambda x: algopy.sum(algopy.real(algopy.fft.fft(x * x, n=6)) * numpy.array([1., 2., 3., 4., 5., 6.]) + algopy.imag(algopy.fft.fft(x * x, n=6)))),
         ("ifft_n_truncate_axis0", lambda x: algopy.sum(algopy.real(algopy.fft.ifft(algopy.reshape(x * x, (2, 2)), n=1, axis=0)) * numpy.array([[1., 2.]]))),
+        # reshape of values that are themselves views (a slice of the parameter vector, the result of an earlier reshape)
+        ("reshape_of_slice", lambda x: algopy.sum(algopy.reshape(x[1:3], (2, 1)) * numpy.array([[2.], [-3.]]) * x[0]) + algopy.sum(algopy.reshape(x[:4], (2, 2)) * algopy.reshape(x[:4], (2, 2)) * W22)),
+        ("reshape_of_reshape", lambda x: algopy.sum(algopy.reshape(algopy.reshape(x, (2, 2)), (4, 1)) * numpy.array([[1.], [2.], [3.], [4.]]) * algopy.reshape(algopy.reshape(x * x, (1, 4)), (4, 1)))),
         # reshape / flatten of intermediates that own their data in a transposed layout
         ("reshape_scaled_transpose", lambda x: algopy.sum(algopy.reshape(2.0 * algopy.reshape(x * x, (2, 2)).T, (4,)) * numpy.array([1., 2., 3., 4.]))),
         ("reshape_sum_of_transposes", lambda x: (lambda X: algopy.sum(algopy.reshape(X.T + (X * X).T, (4,)) * numpy.array([1., 2., 3., 4.])))(algopy.reshape(x, (2, 2)))),
